@@ -783,16 +783,228 @@ fn exhaustive_lengths(seed: u64) -> (u64, Vec<J>, Option<(Fail, J)>) {
     (n, samples, None)
 }
 
+
+// ---------------------------------------------------------------------------------------------
+// several communication sessions through ONE reader: Reader::reset() between them
+
+#[derive(Clone, Debug, Serialize, Deserialize)]
+pub struct Sess {
+    pub items: Vec<Item>,
+    pub chunking: Chunking,
+    /// Some(k): the session is abandoned after k frames were read (whatever is still buffered or half parsed is dropped)
+    pub stop_after: Option<u8>,
+}
+
+#[derive(Clone, Debug, Serialize, Deserialize)]
+pub struct SessCase {
+    pub discard: bool,
+    pub datagram: bool,
+    pub frag_size: u16,
+    pub sessions: Vec<Sess>,
+}
+
+pub struct Sessions;
+
+impl Prop for Sessions {
+    type Case = SessCase;
+    const ID: &'static str = "C06";
+    const NAME: &'static str = "sessions";
+    fn rule() -> &'static str {
+        "2-4 communication sessions read through one link::reader::Reader with Reader::reset() in between (what the master and outstation tasks do when a connection is lost, re-established or pre-empted): a session ends at end of stream, at a framing error (Close mode), or is abandoned after k frames with bytes still buffered / a frame half parsed (truncated frame, lone sync bytes, header without body at the end); oracle: every session delivers exactly the frames the reference scanner finds in that session's bytes alone - nothing of an earlier session (parser state, buffered bytes, payload) reaches a later one; non-trivial = an earlier session ended inside a frame or with unread bytes"
+    }
+    fn cases(tier: Tier) -> u32 {
+        match tier {
+            Tier::Quick => 60_000,
+            Tier::Thorough => 6_000_000,
+        }
+    }
+    fn floors() -> Vec<(&'static str, u32)> {
+        vec![
+            ("ended_inside_frame", 100),
+            ("abandoned_with_unread_bytes", 100),
+            ("ended_at_error", 50),
+        ]
+    }
+    fn strategy(_tier: Tier) -> BoxedStrategy<SessCase> {
+        // a session is likely to end in the middle of something
+        let tail = prop_oneof![
+            3 => (frame_strategy(), any::<u16>()).prop_map(|(f, k)| Item::Truncated(f, k)),
+            1 => (frame_strategy(), prop_oneof![Just(10u16), Just(11), Just(9), Just(2), Just(1)]).prop_map(|(f, n)| {
+                // exact prefix lengths: start bytes only, header minus one, whole header, header plus one
+                let len = f.bytes().len().max(1);
+                Item::Truncated(f, (((n as usize).min(len) << 16) / len + 1).min(65535) as u16)
+            }),
+            1 => Just(Item::Lone05),
+            1 => Just(Item::Sync),
+            1 => (frame_strategy(), proptest::collection::vec(any::<u16>(), 1..=3)).prop_map(|(f, b)| Item::Flipped(f, b)),
+            3 => frame_strategy().prop_map(Item::Frame),
+        ];
+        let sess = (
+            proptest::collection::vec(item_strategy(), 0..4),
+            tail,
+            chunking_strategy(),
+            proptest::option::weighted(0.35, 0u8..4),
+        )
+            .prop_map(|(mut items, tail, chunking, stop_after)| {
+                items.push(tail);
+                Sess {
+                    items,
+                    chunking,
+                    stop_after,
+                }
+            });
+        (
+            any::<bool>(),
+            prop_oneof![5 => Just(false), 1 => Just(true)],
+            prop_oneof![Just(249u16), Just(2048), 249u16..=2048],
+            proptest::collection::vec(sess, 2..=4),
+        )
+            .prop_map(|(discard, datagram, frag_size, sessions)| SessCase {
+                discard,
+                datagram,
+                frag_size,
+                sessions,
+            })
+            .boxed()
+    }
+    fn run(case: &SessCase) -> CaseOut {
+        let mut out = CaseOut::default();
+        let modes = LinkModes {
+            error_mode: if case.discard {
+                LinkErrorMode::Discard
+            } else {
+                LinkErrorMode::Close
+            },
+            read_mode: if case.datagram {
+                LinkReadMode::Datagram
+            } else {
+                LinkReadMode::Stream
+            },
+        };
+        let mut reader = Reader::new(modes, case.frag_size as usize);
+        let mut payload = FramePayload::new();
+        let mut dirty = false; // an earlier session left something behind
+        for (n, s) in case.sessions.iter().enumerate() {
+            let one = Case {
+                discard: case.discard,
+                datagram: case.datagram,
+                frag_size: case.frag_size,
+                items: s.items.clone(),
+                chunking: s.chunking.clone(),
+            };
+            let per_item: Vec<Vec<u8>> = s.items.iter().map(|i| item_bytes(i).0).collect();
+            let ch = chunks(&one, &per_item);
+            let (exp, exp_err) = expected(&one, &ch);
+            let limit = s.stop_after.map(|k| k as usize).unwrap_or(usize::MAX);
+
+            let (io, mut peer) = pipe(case.datagram);
+            for c in &ch {
+                peer.send(c);
+            }
+            peer.close();
+            let mut phys = PhysLayer::Verif(io);
+            let mut got: Vec<F> = vec![];
+            let mut end: Option<LinkError> = None;
+            while got.len() < limit {
+                match block_on_ready(reader.read_frame(
+                    &mut phys,
+                    &mut payload,
+                    DecodeLevel::nothing(),
+                )) {
+                    Ok((h, _)) => {
+                        got.push(to_f(&h, payload.get()));
+                        if got.len() > exp.len() + 64 {
+                            panic!("verif/harness: runaway frame count");
+                        }
+                    }
+                    Err(e) => {
+                        end = Some(e);
+                        break;
+                    }
+                }
+            }
+            let want: Vec<F> = exp.iter().take(limit).cloned().collect();
+            if dirty && n > 0 {
+                out.nontrivial = true;
+            }
+            if got != want {
+                let first = got
+                    .iter()
+                    .zip(want.iter())
+                    .position(|(a, b)| a != b)
+                    .unwrap_or(got.len().min(want.len()));
+                out.fail(
+                    Fail::new(
+                        "session-frames",
+                        format!(
+                            "session #{n} (after {} reset{}): library delivered {} frames, the reference scanner finds {} in this session's bytes; first difference at frame #{first}: lib={:?} ref={:?}; session ended with {:?}",
+                            n, if n == 1 { "" } else { "s" }, got.len(), want.len(), got.get(first), want.get(first), end
+                        ),
+                    )
+                    .with_sig(format!(
+                        "C06 session-frames mode={} first_session={} after_unfinished={}",
+                        if case.discard { "discard" } else { "close" },
+                        n == 0,
+                        dirty
+                    )),
+                );
+                return out;
+            }
+            match &end {
+                Some(e) if exp_err && got.len() == exp.len() => {
+                    if !is_frame_error(e) {
+                        out.fail(Fail::new(
+                            "close-mode-error",
+                            format!("session #{n}: reference finds a framing error, library ended with {:?}", e),
+                        ));
+                        return out;
+                    }
+                    out.label("ended_at_error");
+                    dirty = true;
+                }
+                Some(e) => {
+                    if !is_eof(e) {
+                        out.fail(Fail::new(
+                            "spurious-error",
+                            format!("session #{n}: clean to the end for the reference, library ended with {:?}", e),
+                        ));
+                        return out;
+                    }
+                }
+                None => {}
+            }
+            // what did this session leave behind?
+            let all: Vec<u8> = ch.iter().flatten().copied().collect();
+            let consumed_all = end.is_some();
+            if !consumed_all {
+                out.label("abandoned_with_unread_bytes");
+                dirty = true;
+            }
+            let complete = rl::scan_discard(&all);
+            let last_end = complete.frames.last().map(|(at, f)| at + rl::encode(f.ctrl, f.dst, f.src, &f.payload).len()).unwrap_or(0);
+            if all[last_end.min(all.len())..].windows(2).any(|w| w == [0x05, 0x64]) || all.last() == Some(&0x05) {
+                out.label("ended_inside_frame");
+                dirty = true;
+            }
+            reader.reset();
+        }
+        out
+    }
+}
+
 pub fn run<C: Codec>(tier: Tier) -> i32 {
     let mut ctx = Ctx::<C>::new("C06", tier);
     let seed = ctx.seed;
     ctx.assumptions.push("reference scanner and CRC (harness/wire) are the trusted base; CRC-16/DNP detects all error patterns of weight <= 3 within a block (Hamming distance 6 for blocks <= 16+2 bytes)".into());
     ctx.exhaustive("all 251 payload lengths x {encode == reference, round trip whole / byte-wise / every 2-way split, every single-bit error} x both error modes", || exhaustive_lengths(seed));
     ctx.run::<Stream>();
+    ctx.run::<Sessions>();
     ctx.run::<BitErrors>();
     ctx.finish()
 }
 
 pub fn replay<C: Codec>(text: &str, known: &[Known]) -> Option<i32> {
-    replay_file::<C, Stream>(text, known).or_else(|| replay_file::<C, BitErrors>(text, known))
+    replay_file::<C, Stream>(text, known)
+        .or_else(|| replay_file::<C, BitErrors>(text, known))
+        .or_else(|| replay_file::<C, Sessions>(text, known))
 }
